@@ -31,7 +31,8 @@ ASSUMPTIONS = [
 FLOORS = {'round_trips': 150, 'point_uncompiled': 10, 'point_compiled': 10,
           'point_evaluated': 10, 'point_overwritten': 10, 'point_reevaluated': 5, 'gzip_files': 20,
           'plain_files': 20, 'evaluations_compared': 500,
-          'reused_loader': 20, 'frozen_formula_models': 10}
+          'reused_loader': 20, 'frozen_formula_models': 10,
+          'overwritten_files': 50, 'loaded_twice': 20}
 ANCHOR_FUNCS = {'xlcalculator/model.py': ['Model.persist_to_json_file',
                                           'Model.construct_from_json_file',
                                           'Model.build_code']}
@@ -190,12 +191,25 @@ def run(ctx):
                                       datetime.datetime(2021, 3, 4, 5, 6, 7))
             ctx.event('point_' + point)
             before = snapshot(model)
-            fname = os.path.join(out, f's{ctx.shard}_{mi}{ext}')
+            # one path per shard and extension: a file written earlier (by a
+            # bigger or smaller model) is overwritten
+            fname = os.path.join(out, f's{ctx.shard}{ext}')
+            if os.path.exists(fname):
+                ctx.event('overwritten_files')
             ctx.event('round_trips')
             try:
                 model.persist_to_json_file(fname)
                 with open(fname, 'rb') as fp:
                     magic = fp.read(2)
+                if rng.random() < 0.3:
+                    # somebody loads the file and works with that model before
+                    # the model under observation is constructed from it
+                    other = Model()
+                    other.construct_from_json_file(fname, build_code=True)
+                    for a_, c_ in list(other.cells.items()):
+                        if c_.formula is None:
+                            other.set_cell_value(a_, 987654)
+                    ctx.event('loaded_twice')
                 # the loading Model is a fresh one, or one that has already
                 # loaded another file before
                 if loader is not None and rng.random() < 0.4:
@@ -212,11 +226,6 @@ def run(ctx):
                           'ext': ext}, monitor='round-trip-raises',
                          group=f'raises:{point}:{type(e).__name__}')
                 continue
-            finally:
-                try:
-                    os.remove(fname)
-                except OSError:
-                    pass
             want_gzip = ext.lower() in ('.gz', '.gzip')
             ctx.event('gzip_files' if want_gzip else 'plain_files')
             is_gzip = magic == b'\x1f\x8b'
@@ -269,3 +278,8 @@ def run(ctx):
                 ctx.sample({'cells': build.dict_of(wb), 'point': point,
                             'ext': ext, 'gzip': is_gzip,
                             'cells_compared': len(before['cells'])})
+    for ext in EXTS:
+        try:
+            os.remove(os.path.join(out, f's{ctx.shard}{ext}'))
+        except OSError:
+            pass
